@@ -158,3 +158,37 @@ def proportional(a, b):
     if k != 0 and (a - b * k).iszero():
         return k
     return None
+
+
+def sig(v):
+    if isinstance(v, Rat):
+        return repr(v)
+    if isinstance(v, Obj):
+        return v.name
+    if isinstance(v, ListV):
+        return '[' + ','.join(sig(x) for x in v.items) + ']'
+    if isinstance(v, DictV):
+        return '{' + ','.join('%s:%s' % (k, sig(x)) for k, x in sorted(v.d.items())) + '}'
+    return repr(v)
+
+
+def opaque_obj(I, name, methods, ci=None, rewrite=None):
+    """object whose methods are uninterpreted: each returns an atom named by
+    the method and its (sorted) keyword arguments."""
+    o = Obj(name, ci)
+
+    def mk(mname):
+        def h(I_, obj, args, kwargs):
+            if rewrite and mname in rewrite:
+                return rewrite[mname](I_, obj, args, kwargs)
+            s = ','.join('%s=%s' % (k, sig(kwargs[k])) for k in sorted(kwargs))
+            if args:
+                s = ','.join(sig(a) for a in args) + ';' + s
+            return I_.D.sym('%s.%s(%s)' % (obj.name, mname, s))
+        return h
+    for mname, ps in methods.items():
+        o.opaque_methods[mname] = mk(mname)
+        o.opaque_params[mname] = tuple(ps)
+    return o
+
+
